@@ -76,7 +76,24 @@ def _bath(draw):
             "freq": draw(st.integers(100, 800)), "gamma": draw(st.integers(5, 60)),
             "ft_units": draw(st.sampled_from([None, "1/cm", "eV", "THz"])),
             # the spectral density carries a temperature of its own, different from the one asked for
-            "sd_T_offset": draw(st.sampled_from([0, 100, -40]))}
+            "sd_T_offset": draw(st.sampled_from([0, 100, -40])),
+            # the spectral density is put on a frequency axis supplied by the caller: symmetric about zero, shifted by
+            # half a step so that zero itself is not a grid point
+            "own_axis": draw(st.sampled_from([False, False, True])),
+            # a second (overdamped) component: the derived correlation function carries the summed parameters
+            "second_component": draw(st.sampled_from([None, None, 35]))}
+
+
+def grid(tier):
+    """Every bath type with every option of the bath check switched on, on fixed parameters."""
+    for ft in ("OverdampedBrownian", "UnderdampedBrownian", "B777-alternative", "CP29"):
+        for own in (False, True):
+            for second in (None, 35):
+                for off in (0, 100):
+                    for fu in (None, "1/cm"):
+                        yield {"kind": "bath", "reorg": 40, "cortime": 80, "T": 200, "nt": 300, "dt": 1.0, "ftype": ft,
+                               "freq": 400, "gamma": 30, "ft_units": fu, "sd_T_offset": off, "own_axis": own,
+                               "second_component": second}
 
 
 def strategy(tier):
@@ -370,8 +387,20 @@ def _check_bath(case, ctx):
         params = dict(ftype="UnderdampedBrownian", reorg=float(case["reorg"]), freq=float(case["freq"]),
                       gamma=1.0 / float(case["cortime"]), T=float(T))
 
+    own_axis = bool(case.get("own_axis")) and case["ftype"] in ("OverdampedBrownian", "UnderdampedBrownian")
+    if own_axis:
+        ctx.label("bath:own-frequency-axis-without-zero")
+
     def build():
-        with qr.energy_units("1/cm"):
+        if own_axis:
+            N = 2 * int(case["nt"])
+            dw = math.pi / (case["nt"] * case["dt"])
+            with qr.energy_units("int"):
+                fax = qr.FrequencyAxis(-(N // 2 - 0.5) * dw, N, dw)
+            with qr.energy_units("1/cm"):
+                sd = qr.SpectralDensity(fax, params)
+        else:
+          with qr.energy_units("1/cm"):
             sd = qr.SpectralDensity(ta, params)
         # the derived function may be requested while any energy units are current
         if case.get("ft_units"):
@@ -385,6 +414,21 @@ def _check_bath(case, ctx):
     if not ok:
         return
     w, J, w2, Cw = r
+    if case.get("second_component") and case["ftype"] == "OverdampedBrownian":
+        # a composite density (two overdamped components): the correlation function derived from it reports the sum of
+        # the reorganisation energies (this is the lambda that enters the relaxed site energies of Foerster theory)
+        lam2 = float(case["second_component"])
+
+        def composite():
+            with qr.energy_units("1/cm"):
+                sd2 = qr.SpectralDensity(ta, [dict(params), dict(params, reorg=lam2, cortime=float(case["cortime"]) + 30.0)])
+            cf2 = sd2.get_CorrelationFunction(temperature=float(T))
+            return float(sd2.lamb), float(cf2.lamb)
+        ok, ll = guarded(ctx, "sd-to-cf", composite, "composite")
+        if ok:
+            want_l = (float(case["reorg"]) + lam2) * orc.CM2INT
+            ctx.close("sd-to-cf/summed-reorganisation-energy", ll[0], want_l, rtol=1e-7, where="density")
+            ctx.close("sd-to-cf/summed-reorganisation-energy", ll[1], want_l, rtol=1e-7, where="derived-correlation-function")
     if case.get("sd_T_offset") and case["ftype"] in ("OverdampedBrownian", "UnderdampedBrownian"):
         # the correlation function derived from a spectral density at temperature T is a function of J and T only: a
         # temperature that the spectral density carries itself does not enter when another one is asked for
